@@ -562,10 +562,10 @@ Ltac split_eqb H :=
   repeat match type of H with context [Z.eqb ?x ?y] => let E := fresh "E" in destruct (Z.eqb x y) eqn:E; simpl in H; try discriminate end.
 Ltac eqb_subst := repeat match goal with E : Z.eqb _ _ = true |- _ => apply Z.eqb_eq in E end; subst.
 
-Theorem sdpa_check_fixed_lowerable : forall kb q k v m, sdpa_check true kb q k v m = true ->
+Theorem sdpa_check_fixed_lowerable : forall st kb q k v m, sdpa_check true st kb q k v m = true ->
   exists h, sdpa_via_mha_check kb q k v = Some h /\ (0 <= h)%Z.
 Proof.
-  intros kb q k v m H. unfold sdpa_check in H. unfold sdpa_via_mha_check.
+  intros st kb q k v m H. unfold sdpa_check in H. unfold sdpa_via_mha_check.
   destruct q as [[|a [|b [|c [|d [|? ?]]]]]|]; simpl in H; try discriminate.
   destruct k as [[|a1 [|b1 [|c1 [|d1 [|? ?]]]]]|]; try (destruct kb; simpl in H; discriminate).
   all: destruct kb; simpl in H; split_eqb H.
@@ -573,26 +573,48 @@ Proof.
   all: eqb_subst; apply andb_prop in H; destruct H as [_ Hs]; exists b; repeat (progress (simpl; rewrite ?Z.eqb_refl)); unfold is_static in *; rewrite Hs;
     (split; [reflexivity | apply Z.leb_le; exact Hs]).
 Qed.
-Theorem sdpa_check_as_read_refuted : exists kb q k v, sdpa_check false kb q k v None = true /\ sdpa_via_mha_check kb q k v = None
-  /\ sdpa_check true kb q k v None = false.
+Theorem sdpa_check_as_read_refuted : exists kb q k v, sdpa_check false false kb q k v None = true /\ sdpa_via_mha_check kb q k v = None
+  /\ sdpa_check true false kb q k v None = false.
 Proof. exists true, (Some [2; -2; 3; 4]%Z), (Some [2; -2; 5; 4]%Z), (Some [2; -2; 5; 4]%Z). repeat split; vm_compute; reflexivity. Qed.
 
 (* mask: with static dims the repaired check admits exactly masks that NumPy-broadcast INTO the score shape *)
-Lemma mask_rev_static : forall m c, (0 <= m)%Z -> (0 <= c)%Z ->
-  negb (is_static m && is_static c && negb (m =? 1)%Z && negb (m =? c)%Z) = ((m =? 1) || (m =? c))%Z.
+Lemma mask_rev_static : forall st m c, (0 <= m)%Z -> (0 <= c)%Z ->
+  negb (is_static m && (st || is_static c) && negb (m =? 1)%Z && negb (m =? c)%Z) = ((m =? 1) || (m =? c))%Z.
 Proof.
-  intros m c Hm Hc. unfold is_static. apply Z.leb_le in Hm, Hc. rewrite Hm, Hc. simpl.
+  intros st m c Hm Hc. unfold is_static. apply Z.leb_le in Hm, Hc. rewrite Hm, Hc. rewrite orb_true_r. simpl.
   destruct (m =? 1)%Z, (m =? c)%Z; reflexivity.
 Qed.
-Theorem sdpa_mask_fixed_into_score : forall ms B H S T,
+Theorem sdpa_mask_fixed_into_score : forall st ms B H S T,
   (forall d, In d ms -> 0 <= d)%Z -> (0 <= B)%Z -> (0 <= H)%Z -> (0 <= S)%Z -> (0 <= T)%Z ->
-  mask_into_score ms [B; H; S; T] = true -> numpy_broadcastable (pad4 ms) [B; H; S; T] = true.
+  mask_into_score st ms [B; H; S; T] = true -> numpy_broadcastable (pad4 ms) [B; H; S; T] = true.
 Proof.
-  intros ms B H S T Hms HB HH HS HT. unfold mask_into_score, pad4.
+  intros st ms B H S T Hms HB HH HS HT. unfold mask_into_score, pad4.
   destruct ms as [|m0 [|m1 [|m2 [|m3 [|m4 r]]]]]; simpl; try discriminate; auto.
   all: repeat rewrite mask_rev_static by (try assumption; apply Hms; simpl; auto 6).
   all: rewrite ?andb_true_r; auto.
   all: intro E; repeat (apply andb_prop in E; destruct E as [? E]); repeat (apply andb_true_intro; split); auto.
+Qed.
+(* strict variant, ANY score dims (static or symbolic codes): every static mask dim is 1 or IS the score dim it is aligned with --
+   nothing is left to the run-time value of a symbolic dim *)
+Theorem sdpa_mask_strict_static_dims : forall ms B H S T, length ms = 4%nat ->
+  mask_into_score true ms [B; H; S; T] = true ->
+  Forall2 (fun m c => (0 <= m)%Z -> m = 1%Z \/ m = c) ms [B; H; S; T].
+Proof.
+  intros ms B H S T L. destruct ms as [|m0 [|m1 [|m2 [|m3 [|? ?]]]]]; try discriminate. unfold mask_into_score. simpl.
+  intro E. repeat (apply andb_prop in E; destruct E as [? E]).
+  assert (K : forall m c, negb (is_static m && true && negb (m =? 1)%Z && negb (m =? c)%Z) = true -> (0 <= m)%Z -> m = 1%Z \/ m = c).
+  { intros m c X Hm. unfold is_static in X. apply Z.leb_le in Hm. rewrite Hm in X. simpl in X.
+    destruct (Z.eqb_spec m 1); auto. destruct (Z.eqb_spec m c); auto. discriminate. }
+  constructor; [apply K; assumption|]. constructor; [apply K; assumption|]. constructor; [apply K; assumption|].
+  constructor; [apply K; assumption|]. constructor.
+Qed.
+(* FINDING (known, C19:sdpa:static-mask-dim-against-symbolic-score-dim): as committed, a mask [2,1,S,T] against a symbolic batch is accepted *)
+Theorem sdpa_mask_symbolic_refuted : exists q k v ms, sdpa_check true false true q k v (Some (Some ms)) = true
+  /\ sdpa_check true true true q k v (Some (Some ms)) = false
+  /\ nth 0 ms 0%Z = 2%Z /\ (forall b, q = Some b -> nth 0 b 0%Z < 0)%Z.
+Proof.
+  exists (Some [-2; 3; 2; 2]%Z), (Some [-2; 3; 4; 2]%Z), (Some [-2; 3; 4; 4]%Z), [2; 3; 1; 4]%Z.
+  repeat split; try (vm_compute; reflexivity). intros b E. inversion E; subst. simpl. lia.
 Qed.
 
 
